@@ -10,12 +10,13 @@ from .lib.reachrule import ReachRule
 CONFIGS_QUICK = ["A"]
 CONFIGS_THOROUGH = ["A", "R", "ASYNCSTD", "SMOL", "NIO", "GLOMMIO", "NOAPI"]
 TECHNIQUE = "MIR call-graph reachability of panic/unsafe sinks from the request parser and accessors + guard audit; header/method literal tables; def-use of the read count"
-LEVEL_TEXT = ('Decides clauses C02-a..e: no panic sink and no unguarded unsafe operation is reachable from Request::read/read_payload (request line, headers, '
+LEVEL_TEXT = ('Decides clauses C02-a..f: no panic sink and no unguarded unsafe operation is reachable from Request::read/read_payload (request line, headers, '
               "Content-Length, body) or from the public request accessors (Path, Headers, Cookies) -- the accessors' UTF-8 expectations count as discharged only if "
               'Request::read validates the same bytes before storing them; the request header table is case-consistent and recognised case-insensitively (and answers'
               ' `custom header` only after every case-insensitive name comparison failed), Method::from_bytes/as_str are inverse; the byte count returned by the '
-              'first read bounds what is parsed; `Headers::get(name)` answers None only after the standard header table was consulted for the name. Decides these '
-              'clauses, not the faithfulness of every parsed field for all byte strings.')
+              'first read bounds what is parsed; `Headers::get(name)` answers None only after the standard header table was consulted for the name; no integer '
+              'FromStr (`str::parse`, which accepts a leading `+`) is applied to wire text in Request::read. Decides these clauses, not the faithfulness of every '
+              'parsed field for all byte strings.')
 
 STOP = [r"^ohkami::response::", r"<impl ohkami::response::Response>", r"<ohkami::response::Response as "]
 
@@ -85,6 +86,7 @@ def run(ck, progs):
             ck.guard("C02-c TABLE", lambda: c02c(ck, prog))
         ck.guard("C02-d USED-RESULT", lambda: c02d(ck, prog))
         ck.guard("C02-e MUSTPASS header lookup", lambda: c02e(ck, prog))
+        ck.guard("C02-f API-MISUSE numeric header", lambda: c02f(ck, prog))
     ck.config = None
 
 
@@ -276,3 +278,22 @@ def c02e(ck, prog):
               how="the None answer is dominated by the standard-table lookup")
         n += 1
     ck.floor(R, "None answers of Headers::get", n, 1)
+
+
+def c02f(ck, prog):
+    """`non-numeric ... Content-Length` is malformed and must be refused: the value is 1*DIGIT (RFC 9110 8.6). Rust's
+    `str::parse::<uN>` / `from_str_radix` also accept a leading `+`, so wire digits must not be converted with them
+    (same rule as C07-b for path parameters): in Request::read and its closures no integer FromStr is called."""
+    R = "C02-f API-MISUSE numeric header"
+    rd = prog.one(r"^ohkami::request::Request::read::\{closure#0\}$")
+    bodies = [rd] + prog.descendants(rd.key)
+    bad = []
+    for g in bodies:
+        for c in g.calls():
+            cal = (c.callee or "") + " " + (c.full or "" if hasattr(c, "full") else "")
+            if re.search(r"core::str::<impl str>::parse$|FromStr>::from_str$|from_str_radix$|from_ascii(_radix)?$", c.callee or "") and re.search(r"\b(u8|u16|u32|u64|u128|usize|i8|i16|i32|i64|i128|isize)\b", " ".join(c.targs or []) + " " + (c.callee or "")):
+                bad.append((g, c))
+    ok = not bad
+    ck.ob(R, "Request::read:no-integer-FromStr", ok, bad[0][0].loc(bad[0][1].sp) if bad else rd.loc(None),
+          "" if ok else "Request::read converts header text with `%s`: integer FromStr accepts a leading `+`, so `Content-Length: +5` is taken as 5 instead of being refused with 400" % (bad[0][1].callee),
+          how="no integer FromStr among the calls of Request::read (%d bodies): digits are folded explicitly" % len(bodies))
